@@ -423,6 +423,9 @@ func (e *Exec) visitInstr(fr *frame, instr ssa.Instruction) continuation {
 		fr.set(instr, cell)
 
 	case *ssa.MakeSlice:
+		if l := fr.get(instr.Len).(Sc); l.T != nil && e.P.cfg.AllocLimit > 0 && e.local == nil {
+			e.allocObligation(fr, l)
+		}
 		ln := e.concSize(fr.get(instr.Len).(Sc), "make slice len")
 		cp := e.concSize(fr.get(instr.Cap).(Sc), "make slice cap")
 		if ln < 0 || cp < ln {
@@ -752,6 +755,42 @@ func (e *Exec) concretize(s Sc, what string, limit int) int64 {
 		}
 	}
 	panic(pathEnd{endBound, fmt.Sprintf("concretize %s: more than %d feasible values", what, limit)})
+}
+
+// allocObligation: a make() whose symbolic size can exceed the configured limit is unbounded memory growth.
+func (e *Exec) allocObligation(fr *frame, l Sc) {
+	w := l.T.W
+	if w < 32 {
+		return
+	}
+	d := e.dec
+	if d.pos < len(d.prefix) {
+		dc := d.prefix[d.pos]
+		d.pos++
+		if dc.val && !dc.forced {
+			e.pushPC(e.ctx.Ule(l.T, e.ctx.BV(uint64(e.P.cfg.AllocLimit), w)))
+			e.model = nil
+		}
+		return
+	}
+	e.stats.Obligations++
+	e.pathObl++
+	e.oblLabels["allocation-bounded"]++
+	bad := e.ctx.Ult(e.ctx.BV(uint64(e.P.cfg.AllocLimit), w), l.T) // also catches negative sizes
+	if e.reportIfSat(fr, bad, "panic", fmt.Sprintf("allocation size controlled by input can exceed %d elements (unbounded memory / makeslice panic)", e.P.cfg.AllocLimit)) {
+		d.prefix = append(d.prefix, decision{val: true})
+		d.pos++
+		ok := e.ctx.Not(bad)
+		if r, _ := e.check(ok, e.P.cfg.BranchTimeoutMs, nil); r == Unsat {
+			panic(pathEnd{endViolationStop, "allocation always exceeds the limit"})
+		}
+		e.pushPC(ok)
+		e.model = nil
+		return
+	}
+	e.stats.Discharged++
+	d.prefix = append(d.prefix, decision{val: false, forced: true})
+	d.pos++
 }
 
 func (e *Exec) noteAllocCut(what string) {
